@@ -1,5 +1,6 @@
 """property id -> clauses (rule functions) + the honest remainder.  Single source for MANIFEST.json."""
 from . import r1, r2, r3, r4, r5check, r6, r7, r8, r9, r10, r11
+from .selftest import selftest
 
 
 def fam(*names):
@@ -69,6 +70,10 @@ def _conv_narrowing(ctx, res):
     r2.check_no_width_narrowing_in_conversions(ctx, res)
 
 
+def _conv_intermediate(ctx, res):
+    r2.check_conversion_intermediate(ctx, res)
+
+
 def _no_narrowing(ctx, res):
     r2.check_no_operand_narrowing(ctx, res)
 
@@ -82,7 +87,7 @@ T_R3 = "CFG dominance / guard-or-forward analysis over MIR in dev and release co
 
 PROPS = {
     "C01": {
-        "clauses": [fam("Add", "Sub"), signed("Add", "Sub"), both(r3.check_underflow_asserts), r3.check_checked_sub, r3.check_add2_carry_used, r3.check_underflow_check_sees_all_digits, r3.check_panic_site_table, r4.check_block_loops, r4.check_block_loop_callers, r5check.check_arithmetic({"Add", "Sub"}, 30), count_ok("biguint/addition.rs", "biguint/subtraction.rs", "bigint/addition.rs", "bigint/subtraction.rs", floor=70), r1.check_biguint_normal_form, r5check.check_division_methods, r1.check_no_constant_cut],
+        "clauses": [fam("Add", "Sub"), signed("Add", "Sub"), both(r3.check_underflow_asserts), r3.check_checked_sub, r3.check_add2_carry_used, r3.check_underflow_check_sees_all_digits, r3.check_panic_site_table, r4.check_block_loops, r4.check_block_loop_callers, r5check.check_arithmetic({"Add", "Sub"}, 30), count_ok("biguint/addition.rs", "biguint/subtraction.rs", "bigint/addition.rs", "bigint/subtraction.rs", floor=70), r1.check_biguint_normal_form, r5check.check_division_methods, r1.check_no_constant_cut, selftest("R1-constant-cut", "R2-count-narrowed")],
         "not_decided": "the digit arithmetic itself: adc/sbb of the scalar tail, how far a carry or borrow ripples into the longer operand, result growth (a seeded lost "
         "ripple inside `&a - b` is not detected)",
         "level_text": "Decides structural necessary conditions for every input: the two x86_64 block loops are well-formed carry chains (template data flow, addressing, "
@@ -95,7 +100,7 @@ PROPS = {
         "inline-asm template data-flow analysis; abstract interpretation over the sign domain with polynomial result terms",
     },
     "C02": {
-        "clauses": [fam("Mul"), signed("Mul"), both(r3.check_underflow_asserts), r3.check_add2_carry_used, r8.check_cost_general, r8.check_shorter_first, r5check.check_arithmetic({"Mul"}, 15), count_ok("biguint/multiplication.rs", "bigint/multiplication.rs", floor=40), r1.check_biguint_normal_form, r5check.check_division_methods],
+        "clauses": [fam("Mul"), signed("Mul"), both(r3.check_underflow_asserts), r3.check_add2_carry_used, r8.check_cost_general, r8.check_shorter_first, r5check.check_arithmetic({"Mul"}, 15), count_ok("biguint/multiplication.rs", "bigint/multiplication.rs", floor=40), r1.check_biguint_normal_form, r5check.check_division_methods, selftest("R2-count-narrowed")],
         "not_decided": "temporary sizing, the Karatsuba/Toom-3 algebra (evaluation points, interpolation), mac_with_carry arithmetic, the low-zero stripping arithmetic (all "
         "value-level)",
         "level_text": "Decides: all Mul operator forms forward (operands in either order only because * is commutative) or are reviewed implementations with the sign table "
@@ -106,7 +111,7 @@ PROPS = {
         "reachability); abstract interpretation over the sign domain",
     },
     "C03": {
-        "clauses": [fam("Div", "Rem"), signed("Div", "Rem"), both(r3.check_div_guards), r3.check_checked_div, r3.check_division_sites, r5check.check_arithmetic({"Div", "Rem"}, 30), r5check.check_division_methods, count_ok("biguint/division.rs", "bigint/division.rs", floor=90), r1.check_biguint_normal_form],
+        "clauses": [fam("Div", "Rem"), signed("Div", "Rem"), both(r3.check_div_guards), r3.check_checked_div, r3.check_division_sites, r5check.check_arithmetic({"Div", "Rem"}, 30), r5check.check_division_methods, count_ok("biguint/division.rs", "bigint/division.rs", floor=90), r1.check_biguint_normal_form, selftest("R2-count-narrowed")],
         "not_decided": "Knuth algorithm D (trial digit, add-back), normalisation shifts, the single-digit division loops",
         "level_text": "Decides for every input: each of the ~390 division-family functions either tests its divisor for zero with a release-mode panic before any division "
         "work or forwards the divisor to another division function; the 9 checked division functions return None on the zero edge and reach a division only "
@@ -118,7 +123,7 @@ PROPS = {
         "interpretation over the sign domain with polynomial quotient/remainder terms compared with the definitions",
     },
     "C05": {
-        "clauses": [guards("modulus", "exponent"), r3.check_parity_dispatch, r3.check_residue_complement, r3.check_division_sites, r3.check_add2_carry_used, both(r3.check_underflow_asserts), r1.check_biguint_normal_form, r5check.check_modular, count_ok("biguint/monty.rs", "biguint/power.rs", "bigint/power.rs", "biguint.rs", "bigint.rs", floor=100), both(r11.check_montgomery_operand_lengths), both(r11.check_montgomery_result_length)],
+        "clauses": [guards("modulus", "exponent"), r3.check_parity_dispatch, r3.check_residue_complement, r3.check_division_sites, r3.check_add2_carry_used, both(r3.check_underflow_asserts), r1.check_biguint_normal_form, r5check.check_modular, count_ok("biguint/monty.rs", "biguint/power.rs", "bigint/power.rs", "biguint.rs", "bigint.rs", floor=100), both(r11.check_montgomery_operand_lengths), both(r11.check_montgomery_result_length), selftest("R2-count-narrowed")],
         "not_decided": "Montgomery arithmetic (montgomery, inv_mod_alt, the window walk), plain_modpow's squaring schedule, extended Euclid; padding of the base to the "
         "modulus length",
         "level_text": "Decides: zero-modulus and negative-exponent guards exist in release builds and dominate the computation; the Montgomery path is entered only behind "
@@ -130,7 +135,7 @@ PROPS = {
         "the sign domain; must-pass-through canonicalisation analysis",
     },
     "C06": {
-        "clauses": [both(r3.check_radix), r3.check_parse_validation_order, r7.check_bases, r7.check_formatters, r9.check_sign_readers, r1.check_biguint_normal_form, count_ok("biguint/convert.rs", "bigint/convert.rs", floor=100)],
+        "clauses": [both(r3.check_radix), r3.check_parse_validation_order, r7.check_bases, r7.check_formatters, r9.check_sign_readers, r1.check_biguint_normal_form, count_ok("biguint/convert.rs", "bigint/convert.rs", floor=100), selftest("R2-count-narrowed")],
         "not_decided": "bit-regrouping and chunked Horner/division arithmetic, the accept/reject language of the digit classifier beyond the validation order, padding "
         "(delegated to core::fmt)",
         "level_text": "Decides: all 14 radix-taking entry points (7 per type) enforce their documented range - 2..=36 for text, 2..=256 for digit vectors - by a non-debug "
@@ -141,7 +146,7 @@ PROPS = {
         "technique": T_R3 + " with interprocedural radix-range summaries; const-evaluated static tables read from the compiler; MIR argument-provenance tables",
     },
     "C07": {
-        "clauses": [guards("shift"), fam("Shl", "Shr", "BitAnd", "BitOr", "BitXor"), r5check.check_helpers, r5check.check_shifts, r5check.check_bitops, count_ok("biguint/shift.rs", "bigint/shift.rs", "biguint/bits.rs", "bigint/bits.rs", "biguint.rs", "bigint.rs", floor=100), r1.check_biguint_normal_form],
+        "clauses": [guards("shift"), fam("Shl", "Shr", "BitAnd", "BitOr", "BitXor"), r5check.check_helpers, r5check.check_shifts, r5check.check_bitops, count_ok("biguint/shift.rs", "bigint/shift.rs", "biguint/bits.rs", "bigint/bits.rs", "biguint.rs", "bigint.rs", floor=100), r1.check_biguint_normal_form, selftest("R2-count-narrowed")],
         "not_decided": "running two's-complement carries and result lengths inside the nine bit helpers, intra-digit shift arithmetic, bit queries (bit, trailing_zeros, "
         "count_ones) and set_bit's digit arithmetic",
         "level_text": "Decides: the negative-shift panic precedes everything else in biguint_shl/biguint_shr in release builds (comparison against T::zero() on the shift "
@@ -152,7 +157,7 @@ PROPS = {
         "shift leaves and the bit-operator leaves",
     },
     "C04": {
-        "clauses": [r1.check_closed_world, r1.check_biguint_normal_form, r1.check_normalize_body, r7.check_serde_tables, r9.check_eq_ord_hash, r9.check_sign_readers, r5check.check_helpers, r5check.check_constructors, r5check.check_shifts, r1.check_no_constant_cut],
+        "clauses": [r1.check_closed_world, r1.check_biguint_normal_form, r1.check_normalize_body, r7.check_serde_tables, r9.check_eq_ord_hash, r9.check_sign_readers, r5check.check_helpers, r5check.check_constructors, r5check.check_shifts, r1.check_no_constant_cut, selftest("R1-constant-cut")],
         "not_decided": "cmp_slice's most-significant-first iteration order; canonical form of values produced by the 12 reviewed arithmetic writers (argued value-level, "
         "listed in the evidence)",
         "level_text": "Decides: the representation is written only inside the crate's closed set of writer functions (no public field, no foreign writer, feature modules "
@@ -164,7 +169,7 @@ PROPS = {
         "abstract interpretation over the sign domain for BigInt results",
     },
     "C08": {
-        "clauses": [r5check.check_conversions, r5check.check_tryfrom_err_carries_input, r5check.check_float_guard, _conv_narrowing, count_ok("biguint/convert.rs", "bigint/convert.rs", floor=100)],
+        "clauses": [r5check.check_conversions, r5check.check_tryfrom_err_carries_input, r5check.check_float_guard, _conv_narrowing, count_ok("biguint/convert.rs", "bigint/convert.rs", floor=100), selftest("R2-count-narrowed"), _conv_intermediate],
         "not_decided": "digit accumulation / overflow position in BigUint::to_uN, high_bits_to_u64 and float rounding (ties-to-even, infinity cut-off), from_f64's shift arithmetic, two's-complement magnitude arithmetic of From<iN>",
         "level_text": "Decides the sign-gate and ownership clauses for every input: BigInt::to_{i64,i128,u64,u128} return Some(a) exactly when a fits, including the MIN edge "
         "(|a| compared with 2^63 / 2^127 read from MIR), negative -> None for unsigned targets, zero -> Some(0); BigUint::from_iN rejects negatives; "
@@ -174,7 +179,7 @@ PROPS = {
         "technique": "abstract interpretation over the sign domain (R5) + MIR def-use checks of the error closures + guard dominance",
     },
     "C09": {
-        "clauses": [r9.check_iterators, r9.check_iterator_write_sets, r9.check_sign_readers, r5check.check_constructors, r1.check_biguint_normal_form, count_ok("biguint/convert.rs", "bigint/convert.rs", "biguint/iter.rs", floor=100)],
+        "clauses": [r9.check_iterators, r9.check_iterator_write_sets, r9.check_sign_readers, r5check.check_constructors, r1.check_biguint_normal_form, count_ok("biguint/convert.rs", "bigint/convert.rs", "biguint/iter.rs", floor=100), selftest("R2-count-narrowed")],
         "not_decided": "byte regrouping arithmetic, two's-complement byte loops, the value sequences of the iterators beyond the read/write-set conditions",
         "level_text": "Decides: every U32Digits cursor method (next, next_back, len, last, count, size_hint) consults all three cursor fields, directly or through the cursor "
         "methods it calls (the rule that exposed the U32Digits::last defect), and next/next_back update all three; U64Digits methods delegate to the slice "
@@ -183,7 +188,7 @@ PROPS = {
         "technique": "interprocedural field read-set analysis over MIR (necessity rule)",
     },
     "C10": {
-        "clauses": [_c10_forwarders, _c10_signed, _c10_folds, _no_narrowing, r3.check_panic_site_table, both(r3.check_underflow_asserts), r3.check_add2_carry_used, r5check.check_arithmetic(None, 85), r5check.check_powers, r5check.check_upow, r3.check_operand_overflow, r5check.check_shifts, r5check.check_bitops, r5check.check_division_methods, r5check.check_roots, r5check.check_modular, r1.check_no_constant_cut],
+        "clauses": [_c10_forwarders, _c10_signed, _c10_folds, _no_narrowing, r3.check_panic_site_table, both(r3.check_underflow_asserts), r3.check_add2_carry_used, r5check.check_arithmetic(None, 85), r5check.check_powers, r5check.check_upow, r3.check_operand_overflow, r5check.check_shifts, r5check.check_bitops, r5check.check_division_methods, r5check.check_roots, r5check.check_modular, r1.check_no_constant_cut, selftest("R2-operand-narrowed", "R3c-operand-overflow", "R1-constant-cut")],
         "not_decided": "digit splitting/padding inside the unsigned scalar leaves and the digit arithmetic of the leaf implementations",
         "level_text": "Every one of the ~1286 operator impl bodies is classified from its MIR: ~970 are proven pure forwarders (operands reach the callee in order - swapped "
         "only for commutative operators -, scalar promotions are value-preserving casts, the callee's result is the result, the forwarding graph is acyclic and "
@@ -195,7 +200,7 @@ PROPS = {
         "abstract interpretation of the signed leaves over the sign domain",
     },
     "C11": {
-        "clauses": [guards("root"), r6.check_cfg_taint, r3.check_division_sites, r5check.check_roots, r10.check_fixpoint_invariant, count_ok("biguint.rs", "bigint.rs", floor=100), r1.check_biguint_normal_form],
+        "clauses": [guards("root"), r6.check_cfg_taint, r3.check_division_sites, r5check.check_roots, r10.check_fixpoint_invariant, count_ok("biguint.rs", "bigint.rs", floor=100), r1.check_biguint_normal_form, selftest("R2-count-narrowed"), r3.check_float_guess_guard],
         "not_decided": "Newton convergence (assumed: fixpoint reaches the floor root from any guess), the u64 fast path, float guesses",
         "level_text": "Decides: n > 0 (zeroth root) and the imaginary-root assertions (negative with even degree, sqrt of a negative) are mandatory in release builds, test "
         "the right operands and dominate every return; BigInt roots carry the operand's sign; the std/no_std difference in nth_root/sqrt/cbrt is confined to "
@@ -204,7 +209,7 @@ PROPS = {
         "technique": T_R3 + "; cross-configuration MIR diff with forward taint (cfg-taint)",
     },
     "C12": {
-        "clauses": [fam("Pow"), _no_narrowing, r5check.check_powers, r5check.check_upow, count_ok("biguint/power.rs", "bigint/power.rs", floor=30), r1.check_biguint_normal_form, r3.check_operand_overflow],
+        "clauses": [fam("Pow"), _no_narrowing, r5check.check_powers, r5check.check_upow, count_ok("biguint/power.rs", "bigint/power.rs", floor=30), r1.check_biguint_normal_form, r3.check_operand_overflow, selftest("R2-operand-narrowed", "R3c-operand-overflow", "R2-count-narrowed")],
         "not_decided": "the square-and-multiply arithmetic itself",
         "level_text": "Decides: all Pow operator forms (by value / by reference, every exponent type) are verified forwarders or reviewed implementations that do not narrow "
         "the exponent; BigInt::pow gives the result the sign (-1)^e for negative bases in all 29 forms and canonical zero; the BigUint^BigUint form decides 0^0 "
@@ -212,7 +217,7 @@ PROPS = {
         "technique": "MIR dataflow over operator impls + abstract interpretation over the sign/parity domain",
     },
     "C13": {
-        "clauses": [r3.check_division_sites, r3.check_gcd_zero_cases, r5check.check_helpers, count_ok("biguint.rs", "bigint.rs", floor=100), r1.check_biguint_normal_form],
+        "clauses": [r3.check_division_sites, r3.check_gcd_zero_cases, r5check.check_helpers, count_ok("biguint.rs", "bigint.rs", floor=100), r1.check_biguint_normal_form, selftest("R2-count-narrowed")],
         "not_decided": "Stein's algorithm (common power of two, subtraction loop), extended_gcd (num-integer), arithmetic of the multiple-of helpers",
         "level_text": "Decides: gcd returns the other operand when one is zero before Stein's loop; lcm / gcd_lcm / extended_gcd_lcm divide only by a gcd shown non-zero by a "
         "dominating test (own zero test, or the joint zero test of exactly the gcd's two arguments); is_multiple_of takes the remainder only behind other != 0 "
@@ -235,7 +240,7 @@ PROPS = {
             r3.check_parity_dispatch,
             r3.check_inventory,
             r3.check_panic_site_table,
-            r9.check_iterator_write_sets, r3.check_operand_overflow],
+            r9.check_iterator_write_sets, r3.check_operand_overflow, selftest("R3c-operand-overflow"), r3.check_float_guess_guard],
         "not_decided": "unreachability of internal/debug assertions, primitive arithmetic overflow in debug builds, index bounds, termination, faults other than division by zero",
         "level_text": "Decides the guard discipline for every input in both profiles: every documented failure (zero divisor, underflow, negative shift, radix range, zero "
         "modulus, negative exponent, zeroth/imaginary root, empty range, zero bound) has a release-mode guard testing the right operand before the work; "
@@ -254,7 +259,7 @@ PROPS = {
         "technique": "inline-asm template data-flow analysis (reaching definitions over the instruction list) + MIR def-use/dominance at the call sites; closed-world unsafe inventory",
     },
     "C16": {
-        "clauses": [r6.check_matrix, r6.check_feature_stability, r6.check_cfg_taint, r3.check_inventory, guards(), both(r3.check_underflow_asserts), both(r3.check_radix), both(r3.check_div_guards), r3.check_operand_overflow],
+        "clauses": [r6.check_matrix, r6.check_feature_stability, r6.check_cfg_taint, r3.check_inventory, guards(), both(r3.check_underflow_asserts), both(r3.check_radix), both(r3.check_div_guards), r3.check_operand_overflow, selftest("R3c-operand-overflow"), r3.check_float_guess_guard],
         "not_decided": "equality of results where it rests on arithmetic (Newton fixpoint independent of the guess; float helper agreement; absence of overflow so that "
         "overflow-check and wrapping builds agree); the 32-bit-digit configuration (not compiled on this target)",
         "level_text": "Decides: all ten documented feature configurations type-check; enabling serde/rand/quickcheck/arbitrary changes the canonical MIR of no function that "
@@ -264,7 +269,7 @@ PROPS = {
         "technique": "type checking of the 10-configuration matrix; canonical MIR fingerprints across 4 fact configurations; cfg-taint (cross-config line diff + forward dataflow); dev-vs-release inventory",
     },
     "C17": {
-        "clauses": [r7.check_serde_tables, r6.check_feature_stability, r1.check_biguint_normal_form, r7.check_serde_hint_confined],
+        "clauses": [r7.check_serde_tables, r6.check_feature_stability, r1.check_biguint_normal_form, r7.check_serde_hint_confined, r7.check_serde_declared_length],
         "not_decided": "the u64 -> (lo, hi) split arithmetic and pair re-join",
         "level_text": "Decides: Sign serialises as the i8 -1/0/1 and deserialises by the inverse table with an Err arm for every other byte (switch targets and promoted "
         "constants read from MIR); BigInt <-> the pair (sign, magnitude) in this order, rebuilt through the canonicalising from_biguint; pre-allocation from "
@@ -272,7 +277,7 @@ PROPS = {
         "technique": "MIR switch-table and constant extraction, argument provenance; cross-configuration MIR fingerprints",
     },
     "C19": {
-        "clauses": [r5check.check_helpers, r5check.check_constructors, r5check.check_arithmetic({"Mul"}, 15)],
+        "clauses": [r5check.check_helpers, r5check.check_constructors, r5check.check_arithmetic({"Mul"}, 15), r5check.check_conversions],
         "not_decided": "is_zero <=> empty digit vector relies on the canonical-form invariant (R1, claimed under C04); from_biguint's own body (calls into digit-level code) "
         "is used as a model, its table is checked separately",
         "level_text": "Decides essentially the whole property, because it is finite: an abstract interpreter enumerates every sign case (and order / zero-ness case on demand) of "
@@ -281,7 +286,7 @@ PROPS = {
         "technique": "abstract interpretation of MIR over the sign domain {-,0,+} with polynomial result terms, compared by normal form with oracle tables written from the definitions",
     },
     "C20": {
-        "clauses": [r8.check_cost_general, r8.check_mul_calls_no_long_division],
+        "clauses": [r8.check_cost_general, r8.check_mul_calls_no_long_division, selftest("R8-mul-reaches-long-division")],
         "not_decided": "constant factors of the linear work (additions, allocation), measured operation counts, wall-clock time",
         "level_text": "Decides the property's inequalities on the work recurrence that the code implies: regime thresholds (32, 256), the 2|x| <= |y| rule and the number of "
         "recursive products per regime (2, 3, 5; maximum over CFG paths, recursion found through the call graph) are read from mac3's MIR and instantiate "
@@ -290,7 +295,7 @@ PROPS = {
         "technique": "recurrence extraction: dominance regions of the regime tests in MIR + call-graph reachability for recursive fan-out, evaluated symbolically in Python",
     },
     "C18": {
-        "clauses": [guards("range", "bound"), r10.check_rejection_loop, r10.check_gen_bigint, r10.check_delegations, r10.check_gen_bits, r5check.check_ranges, r4.check_raw_slice_lengths, count_ok("bigrand.rs", floor=20)],
+        "clauses": [guards("range", "bound"), r10.check_rejection_loop, r10.check_gen_bigint, r10.check_delegations, r10.check_gen_bits, r5check.check_ranges, r4.check_raw_slice_lengths, count_ok("bigrand.rs", floor=20), selftest("R2-count-narrowed")],
         "not_decided": "the distribution itself; big-endian word swapping (not compiled on this target); RNG quality",
         "level_text": "Decides: zero bound / empty / inverted range assertions are mandatory and compare the right operands with the right strictness; gen_biguint_below is a "
         "first-candidate rejection loop (bits = bound.bits(), strict <, candidate returned unchanged), hence every value of the range has equally many "
